@@ -230,3 +230,33 @@ Proof.
     destruct B as [B|B]; [exact B|]. apply C in B. rewrite Hp in B. discriminate B.
 Qed.
 
+
+(* ------------------------------------------------------------------ *)
+(* the handle captured in OnBoot of a Run that returns without starting *)
+
+Definition never_started_state : estate :=
+  fst (run estep (einit refute_cfg 1) [ (TR, CBoot AShut); (TR, CNone) ]).
+
+Theorem never_started_refuted : exists s, ereachable s /\ returned s = true /\ e_started s = false /\
+  validate (phase_s s) = RNil /\ stop_entry (phase_s s) = None /\
+  dup_res (phase_s s) (c_nlis (e_cfg s)) (lis_open s) = ROsErr.
+Proof.
+  exists never_started_state. split; [apply run_reachable; exists refute_cfg, 1%nat; reflexivity|].
+  vm_compute. repeat split.
+Qed.
+
+(* a handle that never belonged to a Run that reached OnBoot is reported as empty *)
+Theorem never_started_partial : forall s, e_alloc s = false ->
+  phase_s s = PEmpty /\ validate (phase_s s) = REmpty /\ stop_entry (phase_s s) = Some REmpty.
+Proof. intros s H. unfold phase_s, phase_of. rewrite H. cbn. auto. Qed.
+
+Lemma alloc_iff_booted : forall s, ereachable s -> (e_alloc s = false <-> e_r s = R0).
+Proof.
+  apply (engine_invariant (fun s => e_alloc s = false <-> e_r s = R0)).
+  - intros. cbn. tauto.
+  - intros s t c s' evs _ IH H. cbn [push set_hist e_alloc e_r].
+    assert (t = TR \/ t <> TR) as [->|Hne] by (destruct t; auto; right; discriminate).
+    + cbn in H. unfold rstep in H. destruct (e_r s) eqn:Er; destruct c; try discriminate H; cbv beta iota in H; step_cases H.
+      all: frame_fin; split; intros X; try discriminate X; try (apply IH in X; discriminate X).
+    + destruct (nonR_frame _ _ _ _ _ Hne H) as [Fr [_ [_ Fa]]]. rewrite Fr, Fa. exact IH.
+Qed.
